@@ -266,6 +266,26 @@ func ruleRecoveredFirstOffset(h *H, rule string) {
 		isList := func(y ssa.Value) bool {
 			return ir.DependsOn(y, func(z ssa.Value) bool { return z == list })
 		}
+		// what an extracted helper computed from the list (`bounds := segmentBounds(segments)`)
+		fromCallWithList := func(v ssa.Value) bool {
+			c := ir.Canon(v)
+			if ex, ok := c.(*ssa.Extract); ok {
+				c = ex.Tuple
+			}
+			call, ok := c.(*ssa.Call)
+			if !ok {
+				return false
+			}
+			if f := call.Call.StaticCallee(); f == nil || !ir.InRepo(f) {
+				return false
+			}
+			for _, a := range call.Call.Args {
+				if isList(a) {
+					return true
+				}
+			}
+			return false
+		}
 		var fromListD func(v ssa.Value, d int) bool
 		fromListD = func(v ssa.Value, d int) bool {
 			if d > 6 {
@@ -275,6 +295,18 @@ func ruleRecoveredFirstOffset(h *H, rule string) {
 			case *ssa.UnOp:
 				if ia, ok := x.X.(*ssa.IndexAddr); ok && x.Op == token.MUL {
 					return isList(ia.X)
+				}
+				// a field of a local struct that was filled by a helper from the list
+				if fa, ok := x.X.(*ssa.FieldAddr); ok && x.Op == token.MUL {
+					if al, ok := fa.X.(*ssa.Alloc); ok {
+						sts := ir.AllStores(al)
+						for _, st := range sts {
+							if !fromCallWithList(st.Val) {
+								return false
+							}
+						}
+						return len(sts) > 0
+					}
 				}
 			case *ssa.Call:
 				if b, ok := x.Call.Value.(*ssa.Builtin); ok && b.Name() == "len" {
@@ -298,10 +330,19 @@ func ruleRecoveredFirstOffset(h *H, rule string) {
 				return (rk && fromListD(x.X, d+1)) || (lk && fromListD(x.Y, d+1))
 			case *ssa.Convert:
 				return fromListD(x.X, d+1)
+			case *ssa.Field:
+				return fromCallWithList(x.X)
+			case *ssa.Extract:
+				return fromCallWithList(x)
 			}
 			return false
 		}
-		fromList := func(v ssa.Value) bool { return fromListD(v, 0) }
+		fromList := func(v ssa.Value) bool {
+			if b, ok := v.Type().Underlying().(*types.Basic); !ok || b.Info()&types.IsInteger == 0 {
+				return false
+			}
+			return fromListD(v, 0)
+		}
 		ok := false
 		for _, c := range ir.CmpGuards(w.Instr) {
 			if c.L == c.R {
@@ -315,6 +356,56 @@ func ruleRecoveredFirstOffset(h *H, rule string) {
 			case (lk && fromList(c.R)) || (rk && fromList(c.L)):
 				if c.Op != token.NEQ {
 					ok = true // a bound on the number of segments / on a listed id
+				}
+			}
+		}
+		if !ok {
+			// the comparison behind a predicate over values taken from the list (`span.single()`)
+			for _, g := range ir.Guards(w.Instr) {
+				cond := g.Cond
+				for {
+					u, isU := cond.(*ssa.UnOp)
+					if !isU || u.Op != token.NOT {
+						break
+					}
+					cond = u.X
+				}
+				call, isCall := cond.(*ssa.Call)
+				if !isCall {
+					continue
+				}
+				f := call.Call.StaticCallee()
+				if f == nil || !ir.InRepo(f) || !isPureBoolHelper(f) {
+					continue
+				}
+				isElem := func(x ssa.Value) bool {
+					u, isU := x.(*ssa.UnOp)
+					if !isU || u.Op != token.MUL {
+						return false
+					}
+					ia, isIA := u.X.(*ssa.IndexAddr)
+					return isIA && isList(ia.X)
+				}
+				for _, a := range call.Call.Args {
+					if ir.DependsOn(a, isElem) {
+						ok = true
+					}
+					// a local struct handed over by value: look at what was stored into its fields
+					if u, isU := a.(*ssa.UnOp); isU && u.Op == token.MUL {
+						if al, isAl := u.X.(*ssa.Alloc); isAl && al.Referrers() != nil {
+							for _, r := range *al.Referrers() {
+								fa, isFA := r.(*ssa.FieldAddr)
+								if !isFA || fa.Referrers() == nil {
+									continue
+								}
+								for _, rr := range *fa.Referrers() {
+									if st, isSt := rr.(*ssa.Store); isSt && st.Addr == ssa.Value(fa) && ir.DependsOn(st.Val, isElem) {
+										ok = true
+									}
+								}
+							}
+						}
+					}
 				}
 			}
 		}
@@ -891,7 +982,37 @@ func ruleSequenceUpdatesDelivered(h *H, rule string) {
 			}
 			return false
 		})
+		sendsParam := func(g *ssa.Function, p *ssa.Parameter) bool {
+			found := false
+			ir.Instrs(g, func(x ssa.Instruction) {
+				switch y := x.(type) {
+				case *ssa.Send:
+					if ir.Canon(y.X) == ssa.Value(p) {
+						found = true
+					}
+				case *ssa.Select:
+					if y.Blocking {
+						for _, st := range y.States {
+							if st.Dir == types.SendOnly && ir.Canon(st.Send) == ssa.Value(p) {
+								found = true
+							}
+						}
+					}
+				}
+			})
+			return found
+		}
 		deliver := func(in ssa.Instruction) bool {
+			// the delivery extracted into a helper that sends its parameter on the channel
+			if c := ir.CallOf(in); c != nil {
+				if g := c.StaticCallee(); g != nil && ir.InRepo(g) && g.Blocks != nil && len(g.Params) == len(c.Args) {
+					for i, a := range c.Args {
+						if isKey(a) && sendsParam(g, g.Params[i]) {
+							return true
+						}
+					}
+				}
+			}
 			switch x := in.(type) {
 			case *ssa.Send:
 				return isKey(x.X)
@@ -1022,6 +1143,27 @@ func ruleSwapSelectedFromCurrentView(h *H, rule string) {
 		}
 		n++
 		h.Fn(ir.FuncName(fn))
+		// the emission may sit in an extracted helper ("propose the swap"): the selected set is
+		// built by its caller
+		hasAdd := func(f *ssa.Function) bool {
+			found := false
+			for _, hf := range helperFuncs(f) {
+				ir.Instrs(hf, func(in ssa.Instruction) {
+					if c := ir.CallOf(in); c != nil && isSetMethod(c, "Add") {
+						found = true
+					}
+				})
+			}
+			return found
+		}
+		for lvl := 0; lvl < 3 && !hasAdd(fn); lvl++ {
+			site := ir.SingleCallSite(fn)
+			if site == nil {
+				break
+			}
+			fn, send = site.Parent(), site
+			h.Fn(ir.FuncName(fn))
+		}
 		ratioCall := func(x ssa.Value) bool {
 			c, ok := x.(*ssa.Call)
 			if !ok {
@@ -1029,10 +1171,6 @@ func ruleSwapSelectedFromCurrentView(h *H, rule string) {
 			}
 			f := c.Call.StaticCallee()
 			return f != nil && f.Signature.Recv() != nil && isRatio(f.Signature.Recv().Type())
-		}
-		snapshot := func(x ssa.Value) bool {
-			r, ok := ir.FieldLoadOf(x)
-			return ok && r.Field == "Ensemble"
 		}
 		updatesRatio, rewritesEnsemble := false, false
 		ir.Instrs(fn, func(in ssa.Instruction) {
@@ -1066,8 +1204,7 @@ func ruleSwapSelectedFromCurrentView(h *H, rule string) {
 					}
 				}
 				fromRatio := ir.DependsOn(arg, ratioCall)
-				fromSnap := ir.DependsOn(arg, snapshot)
-				ok := (fromRatio && updatesRatio) || (fromSnap && rewritesEnsemble)
+				ok := (fromRatio && updatesRatio) || (!fromRatio && rewritesEnsemble)
 				why := "derived from the load ratios, which the proposal updates"
 				if !fromRatio {
 					why = "derived from an ensemble field that is rewritten after the proposal"
@@ -1199,4 +1336,241 @@ func ruleSingleResultChannelsBuffered(h *H, rule string) {
 	if n == 0 {
 		h.Anchor(rule, "result channels created by the asynchronous client")
 	}
+}
+
+// ruleResumePositionNotBySign (R17k): a subscriber is positioned by the first batch it
+// receives; on a shard without any committed entry that position is -1. Whether a
+// reconnection carries the position must therefore depend on *having been positioned*,
+// not on the numeric value of the offset: a test like `offset >= 0` makes the subscriber of
+// an empty shard reconnect without position, the server then puts it on the current commit
+// offset, and what was committed in between is never delivered.
+func ruleResumePositionNotBySign(h *H, rule string) {
+	h.Rule(rule, "K5", "in the client, the start offset of a notifications request is omitted only under a condition on the subscriber's state (a boolean), never under a numeric comparison of the last received offset with a constant", 1)
+	n := 0
+	for _, w := range h.P.FieldWrites("proto", "NotificationsRequest", "StartOffsetExclusive") {
+		fn := w.Fn
+		if ir.RelPkg(ir.PkgPathOf(fn)) != "oxia" || w.Val == nil {
+			continue
+		}
+		n++
+		h.Fn(ir.FuncName(fn))
+		// the field whose address is sent when a position is known
+		offsetField := ""
+		var leaves []struct {
+			v        ssa.Value
+			from, to *ssa.BasicBlock
+		}
+		seen := map[ssa.Value]bool{}
+		var walk func(v ssa.Value, from, to *ssa.BasicBlock)
+		walk = func(v ssa.Value, from, to *ssa.BasicBlock) {
+			if phi, ok := v.(*ssa.Phi); ok {
+				if seen[phi] {
+					return
+				}
+				seen[phi] = true
+				for i, e := range phi.Edges {
+					walk(e, phi.Block().Preds[i], phi.Block())
+				}
+				return
+			}
+			if r, ok := ir.FieldAddrOf(v); ok {
+				offsetField = r.Field
+			}
+			leaves = append(leaves, struct {
+				v        ssa.Value
+				from, to *ssa.BasicBlock
+			}{v, from, to})
+		}
+		walk(w.Val, nil, nil)
+		isOffsetLoad := func(x ssa.Value) bool {
+			r, ok := ir.FieldLoadOf(ir.Canon(x))
+			return ok && offsetField != "" && r.Field == offsetField
+		}
+		name := "start offset of the notifications request in " + ir.FuncName(fn)
+		bad, sawState := "", false
+		for _, lf := range leaves {
+			k, isK := lf.v.(*ssa.Const)
+			if !isK || !k.IsNil() || lf.from == nil {
+				continue
+			}
+			var conds []ssa.Value
+			if len(lf.from.Instrs) > 0 {
+				if iff, ok := lf.from.Instrs[len(lf.from.Instrs)-1].(*ssa.If); ok {
+					conds = append(conds, iff.Cond)
+				}
+			}
+			for _, g := range ir.BlockGuards(lf.from) {
+				conds = append(conds, g.Cond)
+			}
+			for _, c := range conds {
+				for {
+					u, ok := c.(*ssa.UnOp)
+					if !ok || u.Op != token.NOT {
+						break
+					}
+					c = u.X
+				}
+				switch x := c.(type) {
+				case *ssa.BinOp:
+					_, lk := x.X.(*ssa.Const)
+					_, rk := x.Y.(*ssa.Const)
+					if (rk && isOffsetLoad(x.X)) || (lk && isOffsetLoad(x.Y)) {
+						bad = "the start offset is left out depending on the value of the last received offset (" + x.Op.String() + " a constant)"
+					}
+				default:
+					if b, ok := c.Type().Underlying().(*types.Basic); ok && b.Kind() == types.Bool {
+						sawState = true
+					}
+				}
+			}
+		}
+		switch {
+		case bad != "":
+			h.Bad(rule, name, h.pos(w.Instr), bad+": a subscriber positioned on -1 (shard without committed entries) reconnects without position and is moved to the current commit offset; the notifications of everything committed in between are lost")
+		case sawState || len(leaves) == 1:
+			h.OK(rule, name, h.pos(w.Instr), "omitted only when the subscriber was never positioned")
+		default:
+			h.Unknown(rule, name, h.pos(w.Instr), "cannot identify the condition under which the start offset is omitted")
+		}
+	}
+	if n == 0 {
+		h.Anchor(rule, "the client's construction of NotificationsRequest.StartOffsetExclusive")
+	}
+}
+
+// ruleEmptyRecordBelowCommit (R10l): a zero size field is what the untouched rest of a
+// segment file looks like, so the recovery scan ends there without error. On a segment that
+// has already yielded entries this is the end of the log only above the commit offset: at or
+// below it a committed entry is missing (its header was zeroed), which must be an error.
+func ruleEmptyRecordBelowCommit(h *H, rule string) {
+	h.Rule(rule, "K5", "v2 recovery: from the classification of an empty record, the scan ends successfully only under commitOffset == nil, entry offset > *commitOffset, or no entry scanned yet (entry offset <= base offset)", 1)
+	for _, fn := range codecImplMethods(h, rule, "RecoverIndex") {
+		if !ir.TypeIs(fn.Signature.Recv().Type(), "server/wal/codec", "V2") {
+			continue
+		}
+		var base, commit *ssa.Parameter
+		for _, p := range fn.Params {
+			if p.Type().String() == "int64" {
+				base = p
+			}
+			if pt, ok := p.Type().(*types.Pointer); ok && pt.Elem().String() == "int64" {
+				commit = p
+			}
+		}
+		if base == nil || commit == nil {
+			h.Anchor(rule, "baseEntryOffset / commitOffset parameters of "+ir.FuncName(fn))
+			continue
+		}
+		isCounter := func(v ssa.Value) bool {
+			phi, ok := v.(*ssa.Phi)
+			if !ok {
+				return false
+			}
+			hasBase, hasInc := false, false
+			for _, e := range phi.Edges {
+				if ir.Canon(e) == ssa.Value(base) {
+					hasBase = true
+				}
+				if bo, ok := e.(*ssa.BinOp); ok && bo.Op == token.ADD && bo.X == ssa.Value(phi) && isOne(bo.Y) {
+					hasInc = true
+				}
+			}
+			return hasBase && hasInc
+		}
+		involvesBase := func(v ssa.Value) bool {
+			return isCounter(v) || ir.DependsOn(v, func(x ssa.Value) bool { return isCounter(x) })
+		}
+		isCommitDeref := func(v ssa.Value) bool {
+			return ir.DependsOn(v, func(x ssa.Value) bool {
+				u, ok := x.(*ssa.UnOp)
+				return ok && u.Op == token.MUL && ir.Canon(u.X) == ssa.Value(commit)
+			})
+		}
+		isEmptyTest := func(cond ssa.Value) bool {
+			return ir.DependsOn(cond, func(x ssa.Value) bool {
+				c, ok := x.(*ssa.Call)
+				if !ok || len(c.Call.Args) != 2 {
+					return false
+				}
+				f := c.Call.StaticCallee()
+				if f == nil || f.Name() != "Is" {
+					return false
+				}
+				u, ok := c.Call.Args[1].(*ssa.UnOp)
+				if !ok {
+					return false
+				}
+				g, ok := u.X.(*ssa.Global)
+				return ok && g.Name() == "ErrEmptyPayload"
+			})
+		}
+		var emptyEdges []ir.Edge
+		for _, b := range fn.Blocks {
+			if len(b.Instrs) == 0 || len(b.Succs) != 2 {
+				continue
+			}
+			if iff, ok := b.Instrs[len(b.Instrs)-1].(*ssa.If); ok && isEmptyTest(iff.Cond) {
+				emptyEdges = append(emptyEdges, ir.Edge{From: b, To: b.Succs[0]})
+			}
+		}
+		if len(emptyEdges) == 0 {
+			h.Anchor(rule, "classification of ErrEmptyPayload in "+ir.FuncName(fn))
+			continue
+		}
+		accept := ir.EdgesWhere(fn, func(c ir.Cmp) bool {
+			switch {
+			case c.Op == token.GTR && involvesBase(c.L) && isCommitDeref(c.R):
+				return true
+			case c.Op == token.EQL && ir.Canon(c.L) == ssa.Value(commit):
+				k, ok := c.R.(*ssa.Const)
+				return ok && k.IsNil()
+			case (c.Op == token.LEQ || c.Op == token.EQL) && involvesBase(c.L) && ir.Canon(c.R) == ssa.Value(base):
+				return true
+			}
+			return false
+		})
+		bad := ""
+		var w []int
+		for _, e := range emptyEdges {
+			ir.Instrs(fn, func(in ssa.Instruction) {
+				ret, isRet := in.(*ssa.Return)
+				if !isRet || bad != "" {
+					return
+				}
+				vals := ir.ReturnValues(ret)
+				if c, isC := vals[len(vals)-1].(*ssa.Const); !isC || !c.IsNil() {
+					return
+				}
+				next := func(x ssa.Instruction) bool {
+					c := ir.CallOf(x)
+					return c != nil && h.P.Matches(c, codecHeader)
+				}
+				if r, path := ir.Reach(ir.Search{FromBlock: e.To, Blocked: accept, Barrier: next}, ir.Is(in)); r {
+					bad = "an empty record ends recovery successfully whatever the commit offset: a committed entry whose header was zeroed is dropped silently together with everything behind it (and the tail wipe of the opener then erases the intact entries that follow)"
+					w = path
+				}
+			})
+		}
+		h.Verdict(bad == "", rule, "empty record ends the scan in "+ir.FuncName(fn), h.P.Pos(fn.Pos()), "only above the commit offset, without commit offset, or on a segment without entries", bad, witness(w))
+	}
+}
+
+// isPureBoolHelper: a small repository function with one bool result and no calls other
+// than builtins (a predicate over its arguments).
+func isPureBoolHelper(f *ssa.Function) bool {
+	if f.Blocks == nil || f.Signature.Results().Len() != 1 {
+		return false
+	}
+	if b, ok := f.Signature.Results().At(0).Type().Underlying().(*types.Basic); !ok || b.Kind() != types.Bool {
+		return false
+	}
+	pure := true
+	ir.Instrs(f, func(in ssa.Instruction) {
+		if c := ir.CallOf(in); c != nil {
+			if _, isB := c.Value.(*ssa.Builtin); !isB {
+				pure = false
+			}
+		}
+	})
+	return pure
 }
